@@ -109,6 +109,14 @@ class SciPySampler(Sampler):
 
         sample_dim = variable_count if self._mask is None else self._mask.sum()
 
+        # A sampler that handles no variables (all of them are masked out, or
+        # assigned to other samplers) does not contribute any perturbations:
+        if sample_dim == 0:
+            return np.zeros(
+                (realization_count, perturbation_count, variable_count),
+                dtype=np.float64,
+            )
+
         if self._method in _STATS_SAMPLERS:
             samples = self._generate_stats_samples(
                 1 if self._sampler_config.shared else realization_count,
